@@ -61,7 +61,7 @@ PROPS = {
         jobs=[dict(harness=BROKER_H, entries=r"^H_C20_", params=dict(quick=dict(K=2, L=3), thorough=dict(K=3, L=4)), shards=dict(quick=8, thorough=16)),
               # registries reached through the API (histories of H operations incl. repeated removals), then Reopen
               dict(harness=BROKER_H, entries=r"^H_C05_history_vs_model$", params=dict(quick=dict(H=2), thorough=dict(H=3)), shards=dict(quick=16, thorough=16))],
-        must_reach=["C20.reopen.ok", "C20.reopen.one-failure", "C05.history.end", "C20.reopen-target.end", "C20.reopen.twice"],
+        must_reach=["C20.reopen.ok", "C20.reopen.one-failure", "C05.history.end", "C20.reopen-target.end", "C20.reopen.twice", "C20.value-nodes.end"],
         bounds=dict(quick="2 types; pipelines of 2..3, 2 and 2 nodes", thorough="pipelines of 2..4, 2, 2 nodes"),
         trusted_base=COMMON_TRUST,
     ),
@@ -220,7 +220,7 @@ PROPS["C09"] = dict(
     level="other",
     explanation=REFLECT_NOTE + "An independently written specification (expect) says for every leaf which operation must have been applied; the forwarded value must be exactly that (kept / [REDACTED] / enc under the wrapper / HMAC under wrapper+salt+info); missing wrapper with a configured encrypt/hmac operation and every failing step must return an error and forward nothing.",
     jobs=[dict(dir=ENC_DIR, harness=ENC_H2, entries=r"^H_C09_|^H_C10_", params=dict(quick={}, thorough={}), shards=dict(quick=8, thorough=16))],
-    must_reach=["C09.struct.ok", "C09.struct.nowrapper", "C09.struct.error", "C09.nested.ok", "C09.toplevel.ok", "C09.first-field.ok", "C09.taggable-faults.ok", "C09.taggable-faults.refused", "C09.wrapper-values.ok", "C09.map-struct-map.ok", "C10.struct.allnone", "C10.trivial.end"],
+    must_reach=["C09.struct.ok", "C09.struct.nowrapper", "C09.struct.error", "C09.nested.ok", "C09.toplevel.ok", "C09.first-field.ok", "C09.taggable-faults.ok", "C09.taggable-faults.refused", "C09.wrapper-values.ok", "C09.map-struct-map.ok", "C09.tag-spellings.checked", "C10.struct.allnone", "C10.trivial.end"],
     bounds=dict(quick="shape catalogue: tagged struct via pointer (11 field kinds incl. unknown class / unknown op / untagged / []byte / nil []byte), nested pointer + []string + [][]byte + *string + untagged map with sub-map + struct value, top-level untagged map / Taggable map / []string / *string / string; struct value as first field (shares the parent's address) + slice of struct values", thorough="same"),
     assumptions=["payload shapes outside the catalogue (protobuf structpb, deeper nesting, slices of Taggables) are not covered", "tags are the concrete tags of the catalogue types (no symbolic tag strings)", "reflect / copystructure / pointerstructure semantics are our model of those libraries"],
     trusted_base=COMMON_TRUST + ["engine/symex/reflectmodel.go", "engine/symex/cryptomodel.go"],
